@@ -30,12 +30,12 @@ def IdxOK (c : Ctl) (h : String) : Prop :=
   | none => alookup h c.smap = none ∨ cacheGet c.cache h = []
   | some e => e.eps.getD [] = cacheGet c.cache h ∧ (cacheGet c.cache h ≠ [] → e.sas = sasOf (cacheGet c.cache h))
 
-structure InvExcept (c : Ctl) (P : Slice → Prop) : Prop where
+structure InvExcept (c : Ctl) (P : Slice → Prop) (Q : Svc → Prop := fun _ => False) : Prop where
   fresh : ∀ sl ∈ c.slices, Servable sl → ¬ P sl → EntryOK c sl
   noForeign : ∀ h n eps, cacheEntry c.cache h n = some eps →
     ∃ sl ∈ c.slices, Servable sl ∧ sl.host = h ∧ sl.name = n
   parked : ∀ sl ∈ c.slices, ¬ P sl → ParkedOK c sl
-  smapSome : ∀ sv ∈ c.svcs, alookup sv.host c.smap = some sv
+  smapSome : ∀ sv ∈ c.svcs, ¬ Q sv → alookup sv.host c.smap = some sv
   smapOnly : ∀ h sv, alookup h c.smap = some sv → sv ∈ c.svcs ∧ sv.host = h
   index : ∀ h, IdxOK c h
   nodup : ∀ h per, alookup h c.cache = some per → NodupKeys per
@@ -57,7 +57,7 @@ structure WF (c : Ctl) : Prop where
 /-- no endpoint without targetRef has an address under which the pod cache holds a pod (the
     `getPodsByIP` guess of `Controller.getPod` then finds nothing) -/
 def NoCachedAddr (c : Ctl) : Prop :=
-  ∀ sl ∈ c.slices, ∀ ea ∈ sl.addrPairs, ea.1.target = none → alookup ea.2 c.byIP = none
+  ∀ sl ∈ c.slices, ∀ ea ∈ sl.addrPairs, ea.1.target = none → ∀ k, setContains c.byIP ea.2 k = false
 
 /-! ### the index -/
 
@@ -288,6 +288,20 @@ theorem podByIP_none (pods : List Pod) (byIP : List (String × List String)) (ns
     (h : alookup a byIP = none) : podByIP pods byIP ns a = none := by
   simp [podByIP, h]
 
+theorem podByIP_empty (pods : List Pod) (byIP : List (String × List String)) (ns a : String)
+    (h : ∀ k, setContains byIP a k = false) : podByIP pods byIP ns a = none := by
+  unfold podByIP
+  cases hl : alookup a byIP with
+  | none => simp
+  | some l =>
+    have : l = [] := by
+      cases l with
+      | nil => rfl
+      | cons x r =>
+        have := h x
+        simp [setContains, hl] at this
+    simp [this]
+
 /-! ### the EndpointSlice handler in closed form -/
 
 theorem buildSlice_none_iff (pods : List Pod) (nodes : List Node) (byIP : List (String × List String))
@@ -379,9 +393,9 @@ theorem idxOK_unchanged (c c' : Ctl) (h : String)
   rw [h1, cacheGet_congr _ _ _ h2, h3]
   exact hok
 
-theorem sliceUpsert_inv (c : Ctl) (P : Slice → Prop) (old : Option Slice) (sl : Slice)
-    (hinv : InvExcept c P) (hwf : WF c) (hsl : sl ∈ c.slices) :
-    InvExcept (sliceUpsert c old sl) (fun x => P x ∧ x ≠ sl) := by
+theorem sliceUpsert_inv (c : Ctl) (P : Slice → Prop) (old : Option Slice) (sl : Slice) {Q : Svc → Prop}
+    (hinv : InvExcept c P Q) (hwf : WF c) (hsl : sl ∈ c.slices) :
+    InvExcept (sliceUpsert c old sl) (fun x => P x ∧ x ≠ sl) Q := by
   have hkey : ∀ x ∈ c.slices, x ≠ sl → x.key ≠ sl.key := fun x hx hne hk => hne (hwf.sliceKeyInj x hx sl hsl hk)
   have hent : ∀ x ∈ c.slices, x ≠ sl → x.host ≠ sl.host ∨ x.name ≠ sl.name := by
     intro x hx hne
@@ -466,8 +480,8 @@ theorem sliceUpsert_inv (c : Ctl) (P : Slice → Prop) (old : Option Slice) (sl 
 
 /-! ### replays (`podArrived`) -/
 
-theorem InvExcept.mono {c : Ctl} {P Q : Slice → Prop} (h : InvExcept c P)
-    (hpq : ∀ x ∈ c.slices, P x → Q x) : InvExcept c Q :=
+theorem InvExcept.mono {c : Ctl} {P Q : Slice → Prop} {S : Svc → Prop} (h : InvExcept c P S)
+    (hpq : ∀ x ∈ c.slices, P x → Q x) : InvExcept c Q S :=
   ⟨fun x hx hs hq => h.fresh x hx hs (fun hp => hq (hpq x hx hp)), h.noForeign,
    fun x hx hq => h.parked x hx (fun hp => hq (hpq x hx hp)), h.smapSome, h.smapOnly, h.index, h.nodup⟩
 
@@ -491,13 +505,17 @@ theorem WF.of_stores {c c' : Ctl} (h : WF c) (h1 : c'.slices = c.slices) (h2 : c
   · rw [h1, h2]; exact h.sliceSvc
   · rw [h3]; exact h.podNameInj
 
-/-- Once every queued replay has run, nothing is exempt any more: the invariant holds in full. -/
-theorem replays_inv (ks : List String) (c : Ctl) (hinv : InvExcept c (fun x => x.key ∈ ks)) (hwf : WF c) :
-    Inv (runEvents c (ks.map Ev.replay)).1 ∧ (runEvents c (ks.map Ev.replay)).2 = [] := by
+/-- Once every queued replay has run, the replayed slices are no longer exempt. -/
+theorem replays_inv (ks : List String) (c : Ctl) (P : Slice → Prop) {Q : Svc → Prop}
+    (hinv : InvExcept c (fun x => P x ∨ x.key ∈ ks) Q) (hwf : WF c) :
+    InvExcept (runEvents c (ks.map Ev.replay)).1 P Q ∧ (runEvents c (ks.map Ev.replay)).2 = [] := by
   induction ks generalizing c with
   | nil =>
     simp only [List.map_nil, runEvents]
-    exact ⟨hinv.mono (fun x _ hp => by cases hp), trivial⟩
+    refine ⟨hinv.mono (fun x _ hp => ?_), trivial⟩
+    cases hp with
+    | inl h => exact h
+    | inr h => cases h
   | cons k ks ih =>
     simp only [List.map_cons, runEvents, handle]
     cases hf : c.slices.find? (fun sl => sl.key = k) with
@@ -508,9 +526,12 @@ theorem replays_inv (ks : List String) (c : Ctl) (hinv : InvExcept c (fun x => x
         have := List.find?_eq_none.mp hf x hx
         simp [hk] at this
       have := ih c (hinv.mono (fun x hx hp => by
-        cases List.mem_cons.mp hp with
-        | inl h => exact absurd h (hno x hx)
-        | inr h => exact h)) hwf
+        cases hp with
+        | inl h => exact Or.inl h
+        | inr h =>
+          cases List.mem_cons.mp h with
+          | inl h => exact absurd h (hno x hx)
+          | inr h => exact Or.inr h)) hwf
       exact ⟨this.1, by simp [this.2]⟩
     | some sl =>
       simp only []
@@ -520,13 +541,16 @@ theorem replays_inv (ks : List String) (c : Ctl) (hinv : InvExcept c (fun x => x
         simpa using this
       have hst := sliceUpsert_stores c none sl
       have h1 := sliceUpsert_inv c _ none sl hinv hwf hsl
-      have h2 : InvExcept (sliceUpsert c none sl) (fun x => x.key ∈ ks) := by
+      have h2 : InvExcept (sliceUpsert c none sl) (fun x => P x ∨ x.key ∈ ks) Q := by
         apply h1.mono
         intro x hx hp
         rw [hst.1] at hx
-        cases List.mem_cons.mp hp.1 with
-        | inl h => exact absurd (hwf.sliceKeyInj x hx sl hsl (by rw [h, hk])) hp.2
-        | inr h => exact h
+        cases hp.1 with
+        | inl h => exact Or.inl h
+        | inr h =>
+          cases List.mem_cons.mp h with
+          | inl h => exact absurd (hwf.sliceKeyInj x hx sl hsl (by rw [h, hk])) hp.2
+          | inr h => exact Or.inr h
       have := ih (sliceUpsert c none sl) h2 (hwf.of_stores hst.1 hst.2.1 hst.2.2.1)
       exact ⟨this.1, by simp [this.2]⟩
 
